@@ -77,7 +77,7 @@ class Parser:
 
     def expr(self, minprec):
         k, v = self.peek()
-        if k == "id" and v in ("forall", "exists"):
+        if k == "id" and v in ("forall", "exists", "sum"):
             self.next()
             var = self.next()[1]
             self.expect("in")
